@@ -38,7 +38,7 @@ PLAN = {
  'C14_m2': [('c14', 'ed-position-subset')],
  'C15_m1': [('c15', 'dice_join')],
  'C15_m2': [('c15', 'edit_distance_join')],
- 'C17_m1': [('c17', 'comments|shape')],
+ 'C17_m1': [('c17', 'dtypes')],
  'C17_m2': [('c17', 'comments')],
  # round 2
  'C01_r2m1': [('c01', 'E1-K'), ('c04', 'E1-K')],
@@ -104,7 +104,7 @@ PLAN = {
  'C14_r3m2': [('c14', 'pair-free-PrefixFilter|pair-PrefixFilter')],
  'C15_r3m1': [('c15', 'jaccard_join|filter_tables:SizeFilter|apply_matcher')],
  'C15_r3m2': [('c15', 'edit_distance_join'), ('c03', 'join-1x1-short')],
- 'C17_r3m1': [('c17', 'comments|shape')],
+ 'C17_r3m1': [('c17', 'dtypes')],
  'C17_r3m2': [('c17', 'shape')],
 }
 
